@@ -140,7 +140,9 @@ def big_calls(g, cfgno, target, shape):
 
 def make_spec(g, allow=()):
     r = g.r
-    names = g.names(r.randint(1, 4), allow)
+    # (names testing can produce that do not start with `Test`: fuzz targets, benchmarks, examples - since the
+    # repair of D11 Clean recognises their headers like any other)
+    names = g.names(r.randint(1, 4), tuple(allow) + ('unrec',))
     stale_names = [n for n in [b'TestGone', b'TestGone/sub', b'TestA/x/old', b'TestOld1', b'TestOld10', b'TestB/gone'] if n not in names]
     r.shuffle(stale_names)
     # the Dir option as the user wrote it: not always in shortest form
